@@ -212,7 +212,10 @@ def skeleton(node: ast.AST, consts: Optional[Callable[[ast.AST], Optional[str]]]
             if isinstance(v, ast.Constant) and isinstance(v.value, str):
                 out.append(v.value)
             elif isinstance(v, ast.FormattedValue):
-                out.append(("hole", A.unparse(v.value)))
+                hv = v.value
+                if isinstance(hv, ast.Call) and isinstance(hv.func, ast.Name) and hv.func.id == "str" and len(hv.args) == 1:
+                    hv = hv.args[0]  # f"{str(x)}" is f"{x}"
+                out.append(("hole", A.unparse(hv)))
             else:
                 return None
         return _merge(out)
